@@ -257,14 +257,15 @@ func (fs LocalFileSystem) Copy(ctx context.Context, src, dst string, options *Co
 		return false, err
 	}
 
-	// TODO: "Note that an infinite-depth COPY of /A/ into /A/B/ could lead to
-	// infinite recursion if not handled correctly"
-
 	srcInfo, err := os.Stat(srcPath)
 	if err != nil {
 		return false, errFromOS(err)
 	}
 	srcPerm := srcInfo.Mode() & os.ModePerm
+
+	if err := checkSrcDst(srcPath, dstPath); err != nil {
+		return false, err
+	}
 
 	if _, err := os.Stat(dstPath); err != nil {
 		if !os.IsNotExist(err) {
@@ -307,6 +308,19 @@ func (fs LocalFileSystem) Copy(ctx context.Context, src, dst string, options *Co
 	return created, nil
 }
 
+// checkSrcDst refuses a COPY or MOVE whose source and destination are the
+// same resource or contain one another: the destination is removed before
+// the operation starts, which would destroy the source as well.
+func checkSrcDst(srcPath, dstPath string) error {
+	sep := string(filepath.Separator)
+	srcDir := strings.TrimSuffix(srcPath, sep) + sep
+	dstDir := strings.TrimSuffix(dstPath, sep) + sep
+	if srcPath == dstPath || strings.HasPrefix(dstPath, srcDir) || strings.HasPrefix(srcPath, dstDir) {
+		return NewHTTPError(http.StatusForbidden, fmt.Errorf("source and destination overlap"))
+	}
+	return nil
+}
+
 func (fs LocalFileSystem) Move(ctx context.Context, src, dst string, options *MoveOptions) (created bool, err error) {
 	srcPath, err := fs.localPath(src)
 	if err != nil {
@@ -314,6 +328,14 @@ func (fs LocalFileSystem) Move(ctx context.Context, src, dst string, options *Mo
 	}
 	dstPath, err := fs.localPath(dst)
 	if err != nil {
+		return false, err
+	}
+
+	// Make sure the source exists before touching the destination
+	if _, err := os.Stat(srcPath); err != nil {
+		return false, errFromOS(err)
+	}
+	if err := checkSrcDst(srcPath, dstPath); err != nil {
 		return false, err
 	}
 
